@@ -168,6 +168,9 @@ func (in *Interp) dispatch(s *State, th *Thread, f *Frame, c *callee, at ssa.Ins
 		key = o.String()
 	}
 	h, ok := intrinsics[key]
+	if ok && in.cfg.Models["real-context"] && strings.HasPrefix(key, "context.") {
+		ok = false // the harness wants cancellation: run the real context package
+	}
 	if !ok && in.cfg.Models[key] {
 		h, ok = optIntrinsics[key]
 	}
